@@ -28,7 +28,7 @@ def IsEcdhKey (k : Key) (ec : EcdhCurve) (c : GoCurve) (x y : Nat) (d : Option N
 
 theorem marshal_ecdh (o : Oracle) (k : Key) (ec : EcdhCurve) (c : GoCurve) (hc : ecdhCurve ec = some c)
     (x y : Nat) (d : Option Nat) (hk : IsEcdhKey k ec c x y d) :
-    (marshal k).run o = .ok (ecObj o k c x y d) := by
+    (marshalFrom k).run o = .ok (ecObj o k c x y d) := by
   obtain ⟨hsize, hcrv, hne, _⟩ := ecdhCurve_facts ec c hc
   obtain ⟨hp, hq⟩ := hk
   have hlx : (Bytes.encodeBE c.size x).length = c.size := encodeBE_length _ _
@@ -43,7 +43,7 @@ theorem marshal_ecdh (o : Oracle) (k : Key) (ec : EcdhCurve) (c : GoCurve) (hc :
     simp only [ecdhPoint, List.drop_succ_cons, hsize]
     rw [List.drop_append_of_le_length (by omega)]
     simp [hlx]
-  unfold marshal
+  unfold marshalFrom
   simp only [PO.run_bind, run_encodeCommon, hp, hq]
   cases d with
   | none =>
@@ -61,9 +61,9 @@ def IsEcdhXKey (k : Key) (x : Bytes) (d : Option Bytes) : Prop :=
     | none => .none)
 
 theorem marshal_ecdh_x (o : Oracle) (k : Key) (x : Bytes) (d : Option Bytes) (hk : IsEcdhXKey k x d) :
-    (marshal k).run o = .ok (okpObj o k .x25519 x d) := by
+    (marshalFrom k).run o = .ok (okpObj o k .x25519 x d) := by
   obtain ⟨hp, hq⟩ := hk
-  unfold marshal
+  unfold marshalFrom
   simp only [PO.run_bind, run_encodeCommon, hp, hq]
   cases d <;> simp [encodeMaterial, encodeECDH, okpObj, osetOpt, EcdhCurve.crv, Okp.crv]
 
